@@ -263,7 +263,7 @@ package nbhttp
 //@ ghost local Parser.gUp : Bool
 //@ ghost local Parser.gRow : (Array Int Int)
 //@ pred ParseCache(p *Parser, offset int, n int, cache0 *[]byte, n0 int, rl0 int) := (cache0 != nil ==> p.bytesCached == cache0 || !liveP[cache0]) && (offset == 0 ==> p.bytesCached == nil && n == n0) && (offset > 0 ==> p.bytesCached != nil && len(*p.bytesCached) == n && (rl0 > 0 ==> n <= rl0)) && p.Engine.ReadLimit == rl0
-//@ pred ParserInv(p *Parser) := p.Processor != nil && p.Engine != nil && p.status == "" && (p.state != stateClose && p.bytesCached != nil ==> liveP[p.bytesCached] && p.bytesCached <= top && len(*p.bytesCached) > 0) && (p.state == stateBodyContentLength ==> p.contentLength > 0) && (p.state == stateBodyChunkData ==> p.chunkSize > 0)
+//@ pred ParserInv(p *Parser) := p.Processor != nil && p.Engine != nil && p.status == "" && (p.state != stateBodyTrailerHeaderValue ==> p.headerValue == "") && (p.state != stateClose && p.bytesCached != nil ==> liveP[p.bytesCached] && p.bytesCached <= top && len(*p.bytesCached) > 0) && (p.state == stateBodyContentLength ==> p.contentLength > 0) && (p.state == stateBodyChunkData ==> p.chunkSize > 0)
 
 //@ pred ParserRest(p *Parser) := (p.state == stateBodyContentLength ==> buflen(p.bytesCached) < p.contentLength) && (p.state == stateBodyChunkData ==> buflen(p.bytesCached) < p.chunkSize)
 //@ func (*Parser).nextState
@@ -335,6 +335,9 @@ package nbhttp
 //@   at before:OnStatus#1 assert fulltext: len(arg_status) == i - start   // prop C07
 //@   note what is handed to the processor is cut out of the stream at exactly the token boundaries (C07: message and token boundaries)
 //@   at before:OnURL#1 assert uri: len(arg_uri) == i - start   // prop C07
+//@   at before:OnHeader#1 assert hv1: arg_key == p.headerKey && len(arg_value) == i - start   // prop C07
+//@   at before:OnHeader#2 assert hv2: arg_key == p.headerKey && len(arg_value) == i - start   // prop C07
+//@   at before:OnTrailerHeader#1 assert tv1: arg_key == p.headerKey   // prop C07
 //@   at before:OnBody#1 assert body: len(arg_data) == p.contentLength && base(arg_data) == base(data) && off(arg_data) == off(data) + start   // prop C07
 //@   at before:OnBody#2 assert chunk: len(arg_data) == p.chunkSize && base(arg_data) == base(data) && off(arg_data) == off(data) + start   // prop C07
 //@   at before:OnContentLength#1 assert cl: arg_contentLength == p.contentLength && p.contentLength >= -1   // prop C07
